@@ -4,8 +4,15 @@ from .common import recv_job, PKT_SOURCES
 from .fsm_common import fsm_job
 from .sync_common import *
 
-INFO = {"outside": "wip", "assumptions": []}
-MANIFEST = {"text": "wip", "note": "wip"}
+INFO = {
+    "outside": 'reports about PDUs longer than the fixed-size types (the client only echoes fixed-size PDUs or headers)',
+    "assumptions": ['as C03'],
+}
+MANIFEST = {
+    "text": "A wire monitor replaces the transport send: every byte sequence handed to it must be one well-formed PDU of the negotiated version with length field = bytes sent <= the client's maximum. The real Error Report senders are decided for every encapsulable PDU type with all bits symbolic (echo must equal the network-order bytes 'as received', computed by an independent decoder); rtr_receive_pdu on an arbitrary stream and rtr_sync on skeletons decide which violation produces which report (code, echo, text made of printable characters -- unconstrained stack bytes cannot satisfy that) and that none is sent in reply to an Error Report.",
+    "note": 'Partial writes of the transport: tr_send_all unit (C04). In the rtr_sync unit the sender is a recording contract stub whose behaviour is proved on the real sender in the errpdu jobs.',
+    "technique": 'CBMC wire monitor on real packets.c senders + receive path + rtr_sync skeletons',
+}
 
 
 def jobs(tier):
